@@ -31,10 +31,13 @@ RULE = (
     "alpha_s(mu0) in [0.2,0.3] scaled by lambda in {1,1/2,1/4,1/8} (QED {1,1/2,1/4}) with the evolution length "
     "ln(mu1^2/mu0^2) scaled by 1/lambda (fixed coupling ratio, the regime in which a_s^n is the sharp power); R(lambda) = "
     "max|E_var - E_unv| / max|E_unv(largest lambda)| over all operator entries; best local exponent >= n - 0.3; xi=1: operators "
-    "bitwise equal. Every run additionally contains a deterministic crossing case chosen from the run seed (run_custom: "
-    "expanded scheme, xi != 1, NLO, one matching crossed up or down at fixed scales, 3-point grid, lambda in {1,1/2,1/4}, "
-    "operator-level R read at the two smallest usable lambdas; the thorough tier runs four, two of them exponentiated at "
-    "NNLO upward with the intrinsic heavy-quark input columns judged separately), and the thorough tier generates threshold crossings with "
+    "bitwise equal. Every run additionally contains deterministic fixed-scale cases chosen from the run seed (run_custom: "
+    "3-point grid, operator-level R; five per quick run, ten per thorough run): scales 0.45 m and 2.5 m around a matching "
+    "scale m with alpha_s given at (m, nf+1); NLO expanded crossing up or down (lambda {1,1/2,1/4}); NNLO crossing upward "
+    "with the expanded and with the exponentiated scheme (lambda down to 1/8, intrinsic heavy-quark input columns judged "
+    "separately); NNLO fixed-flavour evolution in the lower patch with either scheme, i.e. with the coupling reference in "
+    "another flavour patch. Verdict of these cases: last local exponent >= n - 0.3, else a violation only if at least three "
+    "lambdas are usable, the last two local exponents are both low and they do not rise towards n; the thorough tier generates threshold crossings with "
     "either scheme (8-10 point grids, toy PDFs without intrinsic heavy input, as in C50). "
     "Non-trivial = at least two usable lambdas (K: both schemes) or an exact-identity case with a1 != a0; distinct by "
     "the full case (K) / (order, scheme, method, sign of ln xi^2, running, path) (E)."
@@ -65,6 +68,11 @@ ASSUMPTIONS = [
     "noise; the 1e-6 rtol of the exact coupling solver enters both solves through different end points)",
     "end-to-end QED uses lambda down to 1/4 and ln(mu1^2/mu0^2) <= 0.6/lambda with 10-12 iterations so that the "
     "operator's arithmetic mid-point rule stays second order (measured: 10 iterations over ln mu^2 = 5.6 add 2e-4 to R)",
+    "deterministic fixed-scale cases: same segmentation in varied and unvaried paths and every factor within the working "
+    "order on its own, hence no interpolation floor; correct code gives local exponents n (expanded) / n+1 (exponentiated, "
+    "fixed flavour) but the expanded scheme at NNLO approaches 3 slowly (2.2-2.7 rising at lambda <= 1/8 on the unchanged "
+    "tree), so readings that rise, a single low reading after a good one (sign change) and fewer than three usable "
+    "lambdas are undecided; the coupling is deliberately given in the patch above the matching scale",
     "interpreted mode (NUMBA_DISABLE_JIT=1)",
 ]
 LEVEL_TEXT = (
@@ -88,8 +96,8 @@ SCHEMES = ("exponentiated", "expanded")
 
 def budget(tier):
     if tier == "quick":
-        return dict(max_examples=6000, shards=16, wall_s=150, shrink_s=15, custom_shards=1)
-    return dict(max_examples=32000, shards=16, wall_s=850, shrink_s=150, custom_shards=4)
+        return dict(max_examples=6000, shards=16, wall_s=150, shrink_s=15, custom_shards=5)
+    return dict(max_examples=32000, shards=16, wall_s=850, shrink_s=150, custom_shards=5)
 
 
 # --------------------------------------------------------------------------------------------- strategy
@@ -392,9 +400,11 @@ def _thr_card(case, lam, varied):
         masses[1] = 40.0
     lo_s, hi_s = 0.45 * m, 2.5 * m
     up = case["up"]
+    nf_hi = nfl if case.get("ffns") else nfl + 1  # fixed-flavour variant: same scales, no matching on the path
     card = dict(
+        # the coupling is given in the (nfl+1)-flavour patch: a_s of the nfl-flavour segment is reached through a flavour matching
         order=[n, 0], masses=masses, ref=[float(m), nfl + 1], alphas=case["alphas"] * lam,
-        init=[lo_s, nfl] if up else [hi_s, nfl + 1], mugrid=[[hi_s, nfl + 1]] if up else [[lo_s, nfl]],
+        init=[lo_s, nfl] if up else [hi_s, nf_hi], mugrid=[[hi_s, nf_hi]] if up else [[lo_s, nfl]],
         xgrid=[float(x) for x in np.geomspace(0.05, 1.0, case["npts"])], deg=case["deg"], method=case["method"], iters=8,
         inv=None if up else case["inv"],
     )
@@ -403,11 +413,16 @@ def _thr_card(case, lam, varied):
     return card
 
 
+VARIANTS_QUICK = ["expanded-nlo", "expanded-nnlo", "exponentiated-nnlo", "ffns-other-patch-expanded", "ffns-other-patch-exponentiated"]
+
+
 def crossing_case(tier, seed, variant="expanded-nlo"):
-    """Deterministic threshold-crossing cases (run_custom), functions of the run seed; operator-level, 3-point grid, one
-    matching crossed at fixed scales.  'expanded-nlo' (every run): expanded scheme, xif != 1, NLO, up or down, lambda in
-    {1, 1/2, 1/4}.  'exponentiated-nnlo' (thorough tier): exponentiated scheme, NNLO, upward, lambda down to 1/8; the
-    columns of the heavy quark that is still inactive at the start (intrinsic input) are judged separately."""
+    """Deterministic fixed-scale cases (run_custom), functions of the run seed; operator-level, 3-point grid, scales 0.45 m
+    and 2.5 m around one matching scale m, alpha_s given at (m, nf+1) so that the nf-flavour coupling is reached through a
+    flavour matching.  'expanded-nlo': expanded scheme, NLO, crossing up or down, lambda in {1, 1/2, 1/4}.  '*-nnlo': NNLO
+    crossing upward with either scheme, lambda down to 1/8, the columns of the heavy quark that is still inactive at the
+    start (intrinsic input) judged separately.  'ffns-other-patch-*': NNLO fixed-flavour evolution over the same scales in
+    the lower patch, i.e. with the coupling reference in another flavour patch than the evolution."""
     rng = np.random.default_rng([int(seed), 51])
 
     def pick(seq):
@@ -418,21 +433,27 @@ def crossing_case(tier, seed, variant="expanded-nlo"):
 
     up = bool(pick((True, True, False)))
     case = {
-        "half": "E", "kind": "crossing", "order": [2, 0], "scheme": "expanded", "xi2": math.exp(uni(0.5, math.log(4)) * pick((1, -1))),
+        "half": "E", "kind": "crossing", "variant": variant, "order": [2, 0], "scheme": "expanded",
+        "xi2": math.exp(uni(0.5, math.log(4)) * pick((1, -1))),
         "method": pick(("iterate-exact", "truncated", "perturbative-exact")), "nf": pick((3, 4)), "mass": uni(4.0, 6.0), "up": up,
         "inv": pick(("exact", "expanded")), "alphas": uni(0.18, 0.25), "alphaem": 0.0075, "running": False, "npts": 3,
         "deg": pick((1, 2)), "lambdas": [1.0, 0.5, 0.25], "seed": int(seed),
     }
-    if variant == "exponentiated-nnlo":
-        case.update(order=[3, 0], scheme="exponentiated", up=True, method=pick(("truncated", "iterate-exact")), lambdas=[1.0, 0.5, 0.25, 0.125])
+    if variant != "expanded-nlo":
+        case.update(order=[3, 0], scheme=variant.split("-")[-1] if variant.startswith("ffns") else variant.split("-")[0], up=True,
+                    method=pick(("truncated", "iterate-exact")), lambdas=[1.0, 0.5, 0.25, 0.125])
+    if variant.startswith("ffns"):
+        case.update(ffns=True, up=bool(pick((True, False))))
     return case
 
 
 def run_custom(tier, seed, shard, nshards, record):
-    """Deterministic part: threshold crossings with the expanded scheme (one per quick run, four per thorough run).  Only a
-    path with a matching separates 'the last segment carries the variation' from 'every segment does' (Operator.mu2 vs the
-    is_threshold test at the kernel site); the generated end-to-end cases of the quick tier are fixed-flavour."""
-    variants = ["expanded-nlo"] if tier == "quick" else ["expanded-nlo", "exponentiated-nnlo", "expanded-nlo", "exponentiated-nnlo"]
+    """Deterministic part (five cases per quick run, ten per thorough run): configurations the generated fixed-flavour cases
+    cannot reach.  Only a path with a matching separates 'the last segment carries the variation' from 'every segment does'
+    (Operator.mu2 vs the is_threshold test at the kernel site), exercises the coupling of the matching operator and its
+    heavy-quark initiated columns, and only a coupling reference in another flavour patch exercises the shifted matching
+    points of the coupling (commons.couplings)."""
+    variants = VARIANTS_QUICK if tier == "quick" else VARIANTS_QUICK * 2
     for i, variant in enumerate(variants):
         if i % nshards != shard:
             continue
@@ -450,7 +471,7 @@ def check_e2e(case):
     thr = kind in ("threshold", "crossing")
     sign = "+" if case["xi2"] > 1 else ("-" if case["xi2"] < 1 else "0")
     res.classes = [f"E/kind={kind}", f"E/order={n},{qed}", f"E/scheme={scheme}", f"E/method={case['method']}", f"E/lnxi2{sign}"]
-    res.key = [case["order"], scheme, case["method"], sign, case["running"], kind, case.get("up")]
+    res.key = [case["order"], scheme, case["method"], sign, case["running"], kind, case.get("up"), case.get("variant")]
     build = _thr_card if thr else _ffns_card
     where = f"{'qed' if qed else 'qcd'}/sv={scheme}"
     workers = 6 if kind == "crossing" else 4
@@ -528,10 +549,12 @@ def _crossing_verdict(res, case, lams, ops, norm, where):
     products of discretised operators (unlike C50) and the exponent is read at the two smallest usable lambdas."""
     n = case["order"][0]
     nfl = case["nf"]
-    active = nfl if case["up"] else nfl + 1
+    ffns = bool(case.get("ffns"))
+    active = nfl if (case["up"] or ffns) else nfl + 1
     groups = {"active-input": [k for k, p in enumerate(PIDS) if p == 21 or 0 < abs(p) <= active]}
-    if case["up"]:
+    if case["up"] and not ffns:
         groups["intrinsic-heavy-input"] = [k for k, p in enumerate(PIDS) if abs(p) == nfl + 1]
+    path = "ffns-other-patch" if ffns else "threshold"
     nt = False
     for name, cols in groups.items():
         R = [float(np.max(np.abs(ops[2 * i + 1] - ops[2 * i])[:, :, cols, :])) / norm for i in range(len(lams))]
@@ -540,16 +563,31 @@ def _crossing_verdict(res, case, lams, ops, norm, where):
             res.classes.append(f"E/crossing/{name}/unusable")
             continue
         nt = True
-        i, j = idx[-2], idx[-1]
-        ex = math.log(R[i] / R[j]) / math.log(lams[i] / lams[j])
+        loc = [math.log(R[i] / R[j]) / math.log(lams[i] / lams[j]) for i, j in zip(idx[:-1], idx[1:])]
+        ex = loc[-1]
         res.classes.append(f"E/crossing/{name}/exp-n~{round((ex - n) * 2) / 2:+.1f}")
-        if not ex >= n - E_THR:
-            res.fail(
-                f"{ID}/E/exponent/{where}/threshold/{name}",
-                f"{name} columns: |E_{case['scheme']} - E_unvaried| / |E(lambda=1)| = {['%.3e' % r for r in R]} for lambda={lams}: exponent at "
-                f"the two smallest usable lambdas {ex:.2f} < {n - E_THR:.1f} at order {case['order']}; xi^2={case['xi2']:.4g}, method "
-                f"{case['method']}, nf {nfl}{'->' if case['up'] else '<-'}{nfl + 1} across m={case['mass']:.3f} (inv={case['inv']})",
-            )
+        if ex >= n - E_THR:
+            continue
+        # no verdict without asymptotic evidence: a low reading from only two usable lambdas, or local exponents that still
+        # rise towards n (Richardson value reaching the threshold), are undecided
+        if len(loc) < 2:
+            res.classes.append(f"E/crossing/{name}/undecided-two-lambdas")
+            continue
+        if loc[-1] > loc[-2] and 2 * loc[-1] - loc[-2] >= n - E_THR:
+            res.classes.append(f"E/crossing/{name}/undecided-rising")
+            continue
+        if loc[-2] >= n - E_THR:
+            # one low reading after a good one is the signature of a sign change between two terms (seen on a 2-point grid:
+            # 5.11, 1.03 on the unchanged tree), not of a settled lower power: undecided
+            res.classes.append(f"E/crossing/{name}/undecided-single-low-reading")
+            continue
+        res.fail(
+            f"{ID}/E/exponent/{where}/{path}/{name}",
+            f"{name} columns: |E_{case['scheme']} - E_unvaried| / |E(lambda=1)| = {['%.3e' % r for r in R]} for lambda={lams}: local exponents "
+            f"{['%.2f' % e for e in loc]} (usable lambdas), last {ex:.2f} < {n - E_THR:.1f} at order {case['order']}; xi^2={case['xi2']:.4g}, method "
+            f"{case['method']}, nf {nfl}{'' if ffns else ('->' if case['up'] else '<-') + str(nfl + 1)} {'(fixed flavour, ' + ('up' if case['up'] else 'down') + ', alpha_s given at nf=' + str(nfl + 1) + ')' if ffns else ''} "
+            f"around m={case['mass']:.3f} (inv={case['inv']}), variant {case.get('variant')}",
+        )
     res.nontrivial = nt
     return res
 
